@@ -67,6 +67,7 @@ def run_tie2(prop, P, tier, rng, replay=None, facts=None):
                 continue
             env = spec.get('env', lambda cfg, profile: {})(cfg, profile)
             run_cases = spec['prep'](cases, cfg, profile) if 'prep' in spec else cases
+            if 'prep_facts' in spec: run_cases = spec['prep_facts'](run_cases, facts or {})
             impl, model, crashes, stray = vlib.run_both(stream, run_cases, exe, '%s-%s-%s-%s' % (prop, stream, cfg, profile), extra_env=env,
                                                         timeout=spec.get('timeout', {}).get(tier, 900))
             if 'impl_map' in spec:
@@ -902,3 +903,129 @@ PROPS['C06'] = dict(streams=[CTOR_STREAM, LAYOUT_STREAM], side_obligations=ctor_
                     facts_view=lambda f: dict(ctor_forms=((f.get('pointers') or {}).get('forms') or {}).get('ctor')), assumptions=CTOR_ASSUME)
 PROPS['C07'] = dict(streams=[CTOR_STREAM, mech_stream([{'with'}, {'thin', 'with'}, {'unique'}, None], count_oracle=False), ALLOCFAIL_STREAM], side_obligations=ctor_side,
                     facts_view=lambda f: dict(ctor_forms=((f.get('pointers') or {}).get('forms') or {}).get('ctor')), assumptions=CTOR_ASSUME + MECH_ASSUME)
+
+
+# ============================================================================
+# serde stream (C17)
+# ============================================================================
+def sv_u(n): return [1, n]
+def sv_s(s): return [2, len(s)] + [ord(c) for c in s]
+def sv_seq(items):
+    out = [3, len(items)]
+    for i in items: out += i
+    return out
+def sv_map(ents):
+    out = [4, len(ents)]
+    for k, v in ents: out += [len(k)] + [ord(c) for c in k] + v
+    return out
+SV_UNIT = [5]
+
+def sv_gen(rng, ty, mut=0.0, depth=0):
+    """a value of the wire form type `ty` expects (with probability `mut`, something else)"""
+    def word(): return ''.join(rng.choice('abcxyz _09') for _ in range(rng.choice([0, 1, 2, 3, 5, 8, 13])))
+    if rng.random() < mut:
+        return rng.choice([sv_u(rng.randrange(0, 100)), sv_s(word()), sv_seq([]), SV_UNIT, sv_map([]), sv_u(2 ** 32), sv_u(2 ** 40 + 7),
+                           sv_seq([sv_u(1)]), sv_seq([sv_s('a'), sv_u(2)])])
+    def rec():
+        f = [('id', sv_u(rng.randrange(0, 1000))), ('name', sv_s(word())), ('tags', sv_seq([sv_u(rng.randrange(0, 50)) for _ in range(rng.choice([0, 1, 2, 4]))]))]
+        r = rng.random()
+        if r < 0.45: return sv_seq([v for _, v in f])
+        rng.shuffle(f)
+        if rng.random() < mut * 3 + 0.08:
+            c = rng.choice(['drop', 'dup', 'unknown', 'badval'])
+            if c == 'drop': f.pop()
+            elif c == 'dup': f.insert(rng.randrange(0, len(f) + 1), rng.choice(f))
+            elif c == 'unknown': f.insert(rng.randrange(0, len(f) + 1), (rng.choice(['idx', 'Name', '', 'tag']), sv_u(1)))
+            else: f[0] = (f[0][0], SV_UNIT)
+        return sv_map(f)
+    if ty == 0: return sv_u(rng.choice([0, 1, 7, 255, 65536, 2 ** 32 - 1, rng.randrange(0, 2 ** 32)]))
+    if ty == 1: return sv_s(word())
+    if ty in (2, 8): return sv_seq([sv_u(rng.randrange(0, 99)), sv_s(word())][:rng.choice([2, 2, 2, 2, 1, 0])] + ([sv_u(3)] if rng.random() < 0.1 else []))
+    if ty == 3: return sv_seq([sv_gen(rng, 0, mut / 2) for _ in range(rng.choice([0, 1, 2, 3, 6]))])
+    if ty == 4: return rec()
+    if ty == 5:
+        return sv_seq([rec(), sv_seq([sv_u(rng.randrange(0, 9)), sv_u(rng.randrange(0, 9))]), sv_seq([rec() for _ in range(rng.choice([0, 1, 2]))])][:rng.choice([3, 3, 3, 3, 2])])
+    if ty == 6: return SV_UNIT
+    if ty == 7: return sv_seq([sv_gen(rng, 1, mut / 2) for _ in range(rng.choice([0, 1, 2, 4]))])
+    if ty == 9: return sv_seq([sv_gen(rng, 2, mut / 2) for _ in range(rng.choice([0, 1, 2, 3]))])
+    return SV_UNIT
+
+def gen_serde(tier, rng):
+    cases = []; n = 0
+    def add(op):
+        nonlocal n
+        cases.append(('S%d' % n, [op])); n += 1
+    base = random.Random(4242)       # the systematic part does not depend on the seed
+    # every type x a few well-formed values x handle x {ser, de} x failure at every callback 0..K
+    for ty in range(10):
+        vals = [sv_gen(base, ty) for _ in range(3 if tier != 'thorough' else 8)]
+        for v in vals:
+            for handle in (0, 1):
+                for k in range(0, 34 if ty in (4, 5, 9) else 14):
+                    add([1, handle, ty, k] + v); add([2, handle, ty, k] + v)
+    # ill-typed / malformed inputs: the error comes from the payload's own deserialiser
+    for ty in range(10):
+        for _ in range(12 if tier != 'thorough' else 60):
+            v = sv_gen(base, ty, mut=0.5)
+            for handle in (0, 1):
+                add([2, handle, ty, 0] + v); add([2, handle, ty, base.randrange(1, 9)] + v); add([1, handle, ty, 0] + v)
+    for handle in (0, 1):
+        for which in range(11): add([3, handle, which])
+    R = 1500 if tier != 'thorough' else 40000
+    for i in range(R):
+        ty = rng.randrange(0, 10); v = sv_gen(rng, ty, mut=0.08)
+        k = 0 if rng.random() < 0.35 else rng.randrange(1, 60)
+        add([rng.choice([1, 2, 2]), rng.randrange(0, 2), ty, k] + v)
+    for op in ([1, 0], [1, 2, 0, 0, 1, 5], [2, 0, 11, 0, 5], [2, 0, 0, 0, 1], [2, 0, 0, 0, 1, 5, 5], [4, 0, 0, 0, 5], [2, 0, 1, 0, 2, 2, 7, 200], [3, 0], [2, 0, 3, 0, 3, 40], [1, 1, 0, 20000, 1, 5]): add(op)
+    return cases
+
+def oracle_serde(ops, io, ctx):
+    op = ops[0]; o = io[0]
+    if len(op) < 3 or len(o) < 4: return None
+    who = 'Arc' if op[1] == 0 else 'UniqueArc'
+    if op[0] == 1 and o[0] <= 1:
+        if o[3] != 1: return 'serialising %s<T%d> (failure injected at call %d) drives the serializer differently from serialising the value itself: %s' % (who, op[2], op[3], o)
+    if op[0] == 2 and o[0] <= 1 and len(o) >= 10:
+        st, code, at, same, count, unique, extra, live, bad, dt = o[:10]
+        if bad: return 'deserialising %s<T%d>: %d accesses to dead or uninitialised values / bogus releases' % (who, op[2], bad)
+        if same != 1: return 'deserialising %s<T%d> (failure at callback %d): result or callback sequence differs from the payload\'s own deserialiser' % (who, op[2], op[3])
+        if live != 0: return 'deserialising %s<T%d>: %d allocations left behind' % (who, op[2], live if live < 2 ** 63 else live - 2 ** 64)
+        if st == 0 and (count != 1 or unique != 1): return 'deserialised %s<T%d> is not a sole owner: count %d' % (who, op[2], count)
+        if st == 0 and extra != 1: return 'deserialising %s<T%d> makes %d allocations more than the payload alone (expected exactly the block)' % (who, op[2], extra if extra < 2 ** 63 else extra - 2 ** 64)
+        if st == 1 and extra != 0: return 'deserialising %s<T%d> failed but made %d allocations the payload\'s deserialiser does not make' % (who, op[2], extra if extra < 2 ** 63 else extra - 2 ** 64)
+    if op[0] == 3 and len(o) == 7:
+        st, same, count, unique, extra, live, bad = o
+        if bad or same != 1 or live != 0 or (st == 0 and (count, unique, extra) != (1, 1, 1)) or (st == 1 and extra != 0):
+            return '%s from serde::de::value deserializer #%d: %s' % (who, op[2], o)
+    return None
+
+def dist_serde(cases):
+    d = dict(op={}, ty={}, with_failure=0, ill_typed_guess=0, max_len=0)
+    for cid, ops in cases:
+        op = ops[0]
+        d['op'][str(op[0])] = d['op'].get(str(op[0]), 0) + 1
+        if len(op) > 3 and op[0] in (1, 2):
+            d['ty'][str(op[2])] = d['ty'].get(str(op[2]), 0) + 1
+            if op[3]: d['with_failure'] += 1
+            d['max_len'] = max(d['max_len'], len(op))
+    return d
+
+def serde_prep(cases, facts):
+    codes = (facts.get('serde') or {}).get('codes') or [0, 0, 0, 0]
+    return [(cid, [[101] + list(codes)] + ops) for cid, ops in cases]
+
+SERDE_STREAM = dict(stream='serde', gen=gen_serde, oracle=oracle_serde, distribution=dist_serde, prep_facts=serde_prep,
+                    nontrivial=lambda ops, io: len(ops[0]) > 6 and ops[0][0] in (1, 2),
+                    rule='payload family: u32, String, (u32,String), Vec<u32>, Vec<String>, Vec<(u32,String)>, (), hand-written struct Rec (from sequences and from maps with permuted, missing, duplicate and unknown keys), nested hand-written struct, a token-carrying tuple struct; recording serializer and recording self-describing deserializer (harness/src/serdes.rs) failing at the k-th callback, k = 0..13 / 0..33 systematically on 3 (thorough 8) values per type and random beyond; ill-typed inputs (error raised by the payload\'s own deserialiser); serde::de::value deserializers (10 fixed cases); for Arc and UniqueArc; observation: status, error code and position, equality with the plain value run, count, uniqueness, allocations beyond the payload\'s own, live allocations afterwards, bad accesses, destructor count, full callback trace; the model is run with the four impl bodies the translator extracted; non-trivial = a structured value; distinct = distinct cases',
+                    cfgs=dict(quick=[('cfg_default', 'debug'), ('cfg_default', 'release')], thorough=[('cfg_default', 'debug'), ('cfg_default', 'release'), ('cfg_all', 'release')]))
+
+def c17_side(facts):
+    S = facts.get('serde') or {}
+    return [('serde_impls_are_the_four_modelled', bool(S.get('closed')), 'impls found: %s' % S.get('impls')),
+            ('serialize_bodies_delegate_to_the_payload', S.get('codes', [0, 0])[:2] == [2, 2], 'Arc: %s, UniqueArc: %s' % (S.get('ser_arc'), S.get('ser_uniq'))),
+            ('deserialize_bodies_map_through_new', all(c in (1, 2, 3, 4) for c in S.get('codes', [0, 0, 0, 0])[2:]), 'Arc: %s, UniqueArc: %s' % (S.get('de_arc'), S.get('de_uniq'))),
+            ('constructor_bodies_are_the_modelled_ones', bool(((facts.get('pointers') or {}).get('forms') or {}).get('ctor')), 'Arc::new / UniqueArc::new golden bodies')]
+
+PROPS['C17'] = dict(streams=[SERDE_STREAM], side_obligations=c17_side, facts_view=lambda f: f.get('serde'),
+                    assumptions=['serde\'s own Serialize/Deserialize impls for the payload family (u32, String, tuples, Vec, unit) are modelled in Serde.v as the call sequences they make; validated call-for-call by the stream',
+                                 'equality of the deserialised value with the payload\'s own result is observed on the implementation (PartialEq of the payload), not modelled'] + MECH_ASSUME[:1])
